@@ -27,7 +27,9 @@ META = {
             "design the code under test follows (decided by two scripted calibration runs each) are forced step by "
             "step onto the real _serve_socket_threaded / launch() / serve_unix by a deterministic scheduler, plus "
             "random walks over whatever the real code enables; TLC judges every observable history with the Monitor "
-            "specs (VIOLATION) and validates every step trace against the model with the Trace specs (drift).",
+            "specs (VIOLATION) and validates every step trace against the model with the Trace specs (drift).  "
+            "Thorough adds one run with real processes: concurrent real launch() calls (real flock, real worker "
+            "processes), the worker's real idle exit and a relaunch, judged by the same monitor.",
     "note": "Trusted: the cooperative scheduler (one thread runs between park points: state_lock / file-lock acquires, "
             "accept(), serve(), probe, unlink, spawn, worker check/bind/serve/unlink); the OS file lock as a mutex "
             "(FileLock replaced by a scheduler lock); launcher *processes* are threads calling the real launch(); "
